@@ -509,7 +509,7 @@ def _write_receiver(n, fld):
 #  a fault at every callback step), interpreted on the source with adversarial callbacks.
 def fault_table(p, led, tier):
     import itertools
-    from ..fdai import Interp, Obj, PyRaise, ExcVal, Unknown, explore, Imprecise, stub
+    from ..fdai import Interp, Obj, PyRaise, ExcVal, Unknown, explore, Imprecise, stub, _OneShot
     system = p.cls("CoordinationSystem", "operon_ai/coordination/system.py")
     ctrl = p.cls("CellCycleController", "operon_ai/coordination/controller.py")
     lock = p.cls("ResourceLock", "operon_ai/coordination/types.py")
@@ -532,9 +532,13 @@ def fault_table(p, led, tier):
     abort_m0 = p.find_method(ctrl, "abort_operation")
     if complete_m is None or abort_m0 is None:
         raise AnchorError("CellCycleController.complete_operation / abort_operation not found")
-    for req in lists:
-        for pre in prestates:
-            def go(o):
+    # the same request handed over as a one-shot iterator (a generator, map(...), iter(...)): it can be walked once only
+    lists = lists + [l + ("§iter",) for l in lists if 1 <= len(l) <= 2]
+    for req0 in lists:
+        one_shot = bool(req0) and req0[-1] == "§iter"
+        req = req0[:-1] if one_shot else req0
+        for pre in (prestates if not one_shot else [pr for pr in prestates if "preemptable" not in pr]):
+            def go(o, req=req, one_shot=one_shot):
                 it = Interp(p, o)
                 it.stubs["PriorityInheritance.__init__"] = lambda interp, args, kwargs: None
                 sysobj = it.instantiate(system, [], {})
@@ -582,7 +586,7 @@ def fault_table(p, led, tier):
                     return k == 0
                 use_validate = it.o.choose(2, "validate_fn given / None") == 0
                 try:
-                    r = it.call_fi(execop, [sysobj, "op", "agent", work, list(req), validate if use_validate else None, 5], {})
+                    r = it.call_fi(execop, [sysobj, "op", "agent", work, (_OneShot(list(req)) if one_shot else list(req)), validate if use_validate else None, 5], {})
                     res = dict(success=r.fields.get("success"))
                 except PyRaise as e:
                     res = dict(raised=repr(e.exc))
